@@ -12,8 +12,8 @@ gd = extract('ir/analysis/mod.rs', r'^pub\(crate\) fn generate_dependencies<F>\(
 amod = amod.replace(gd, '')
 prelude = r'''
 #![allow(warnings)]
-pub const N: usize = 4;
-pub const CAP: usize = 40;
+pub const N: usize = 3;
+pub const CAP: usize = 24;
 #[derive(Clone, Debug)]
 pub struct Vec<T> { buf: [Option<T>; CAP], len: usize }
 impl<T: Copy> Vec<T> {
@@ -58,14 +58,14 @@ mod proofs {
         (Sym { g, seed, val: [0; N], order, break_edge: be }, want)
     }
     #[kani::proof]
-    #[kani::unwind(42)]
+    #[kani::unwind(26)]
     fn analyze_reaches_lfp() {
         let (s, want) = setup(false);
         let got = analyze::<Sym>(s);
         let mut i = 0; while i < N { assert!(got[i] == want[i]); i += 1; }
     }
     #[kani::proof]
-    #[kani::unwind(42)]
+    #[kani::unwind(26)]
     fn twin_missing_dependency_must_fail() {
         let (s, want) = setup(true);
         let got = analyze::<Sym>(s);
